@@ -476,7 +476,8 @@ class C18(CoreProp):
 class C19(CoreProp):
     pid = 'C19'; props_file = 'Props_C19'; focus = {'life', 'ps'}
     proj = Proj(rets=('sub', 'unsub'), cb=cb_sys)
-    rule = ('corpus + random programs with subscriptions to the system topics, loop starts/stops (blocking and dispatch) and module transitions; '
+    scenario = staticmethod(GC.gen_sysnote_case)
+    rule = ('corpus + random programs with subscriptions to the system topics, loop starts/stops (blocking and dispatch) and module transitions + watcher scenarios (running or paused watchers, every transition of the other modules incl. the last running one); '
             'non-trivial = distinct script delivering >= 1 system notification')
     def nontrivial(self, case, ctr):
         return ctr is not None and any(l.startswith('cb ') and re.search(r':1:\d+( |$)', l) for l in ctr)
